@@ -1115,21 +1115,25 @@ def run(ctx: vlib.Ctx):
     br3 = ctx.theorems("props/C10_fields.vo", ["C10_field_decl"], kernels=["K5"])
     br4 = ctx.theorems("props/C10_positions.vo", ["C10_positions", "C10_dialect_reaches", "C10_format_dialect_everywhere"],
                        kernels=["K5", "K5P", "K8"])
-    proofs_ok = br.ok and br2.ok and br3.ok and br4.ok and all(ctx.kernel_report.get(k, {}).get("ok") for k in ("K5", "K5P", "K8"))
+    br5 = ctx.theorems("props/C10_dispatch.vo", ["C10_dispatch_optional", "C10_dispatch_union", "C10_dispatch_newtype", "C10_dispatch_self",
+                                                 "C10_dispatch_named_tuple", "C10_dispatch_tuple", "C10_dispatch_list",
+                                                 "C10_dispatch_typed_dict", "C10_dispatch_mapping"], kernels=["K5D"])
+    proofs_ok = br.ok and br2.ok and br3.ok and br4.ok and br5.ok and all(ctx.kernel_report.get(k, {}).get("ok") for k in ("K5", "K5P", "K8"))
     if proofs_ok and not ctx.quick():
         # second opinion: the independent checker on the compiled property files
         with vlib.Lock("build"):
             rc, out, _ = vlib.run(["timeout", "600", "coqchk", "-silent", "-o", "-Q", "theories", "Verif", "-Q", "gen", "VerifGen",
-                                   "-Q", "props", "VerifProps", "VerifProps.C10_precedence", "VerifProps.C10_single", "VerifProps.C10_fields", "VerifProps.C10_positions"],
+                                   "-Q", "props", "VerifProps", "VerifProps.C10_precedence", "VerifProps.C10_single", "VerifProps.C10_fields", "VerifProps.C10_positions", "VerifProps.C10_dispatch"],
                                   cwd=vlib.COQ, timeout=640)
         ok = rc == 0 and "Axioms: <none>" in out
-        ctx.obligation("coqchk -o (C10_precedence, C10_single, C10_fields, C10_positions): no axioms", ok, out[-600:])
+        ctx.obligation("coqchk -o (C10_precedence, C10_single, C10_fields, C10_positions, C10_dispatch): no axioms", ok, out[-600:])
         if not ok:
             ctx.not_shown("coqchk", out[-1500:])
 
     kernel_validation(ctx, ctx.budget(120, 1200))
     registry_validation(ctx, ctx.budget(150, 1500))
     fields_validation(ctx, ctx.budget(150, 1500))
+    dispatch_validation(ctx, ctx.budget(40, 300))
 
     cases = generate_cases(ctx)
     if not proofs_ok and ctx.quick():
@@ -1291,6 +1295,84 @@ def paths_part(ctx: vlib.Ctx, proofs_ok: bool):
     if not done:
         compare("positions-real-classes-vs-model", "PyK_strat OptProj Strategies Positions", "", cp.COQ_DEFS + cp.COQ_OK_MODEL,
                 ["theories/Positions.vo"])
+
+
+def dispatch_validation(ctx: vlib.Ctx, n_terms: int):
+    """(T) tie of K5D: for the real type objects of generated type terms (and Self / Tuple[Self, ...]) every test
+    expression of the four dispatch chains is evaluated with the library's own predicates (in the namespace of
+    pack.py / unpack.py, on a spec stand-in); the translated chain under that valuation must name the site the model
+    uses for that kind of node."""
+    import importlib.util
+    import typing
+    import mashumaro.core.meta.types.pack as pack
+    import mashumaro.core.meta.types.unpack as unpack
+    from mashumaro.core.meta.helpers import get_args, get_type_origin
+    from harness.props import c10_paths as cp
+    spec_ = importlib.util.spec_from_file_location("vk_k5d", os.path.join(vlib.VERIF, "tools", "kernels", "k5d_dispatch.py"))
+    k5d = importlib.util.module_from_spec(spec_)
+    spec_.loader.exec_module(k5d)
+    texts = k5d.test_texts()
+    rng = ctx.rng
+    expect = {"opt": "SStep TOptional", "list": "SStep TElement", "dict": "SStep TElement", "nt": "SStep TNewType",
+              "union": "SStep TMember", "tuple": "SStep TTupleItem", "ntuple": "SStep TNamedField", "tdict": "SStep TTypedKey",
+              "leaf": "SDecline"}
+    objs = []       # (description, type object, expected site)
+    for _ in range(n_terms):
+        term = cp.Term(cp.gen_type(rng))
+        ns = {}
+        exec("import datetime, decimal\nfrom typing import *\n" + "\n".join(term.defs), ns)
+        for nd in term.nodes:
+            objs.append((f"{nd['kind']} {nd['ex']}", ns[nd["ex"]], expect[nd["kind"]]))
+    objs += [("Self", typing.Self, "SSelf"), ("Tuple[Self, ...]", typing.Tuple[typing.Self, ...], "SStep TTupleItem"),
+             ("Optional[Self]", typing.Optional[typing.Self], "SStep TOptional"), ("int", int, "SDecline"),
+             ("str", str, "SOther")]
+    cases, descr = [], []
+    for what, t, exp in objs:
+        org = get_type_origin(t)
+        for side, mod in (("pack", pack), ("unpack", unpack)):
+            fake_builder = types.SimpleNamespace(get_field_resolved_type_params=lambda name: {}, cls=object, is_nailed=True,
+                                                 dialect=None, initial_type_args=(), format_name="dict", encoder=None, decoder=None)
+            sp = types.SimpleNamespace(type=t, origin_type=org, builder=fake_builder, field_ctx=types.SimpleNamespace(name="x", metadata={}),
+                                       annotations=(), expression="value", no_copy_collections=())
+            loc = {"spec": sp, "args": get_args(t), "resolved_type_params": {}, "constraints": (), "evaluated": None,
+                   "method_name": "m", "method_loc": object}
+            vals = []
+            for tx in texts[side]:
+                try:
+                    v = bool(eval(tx, mod.__dict__, loc))
+                except Exception:  # noqa: BLE001  (a test that cannot be evaluated for this type is not reached)
+                    v = False
+                vals.append(f"({vlib.coq_str(tx)}, {'true' if v else 'false'})")
+            cases.append(f"({'true' if side == 'pack' else 'false'}, [{'; '.join(vals)}], {exp})")
+            descr.append(f"{side} {what} -> {exp}")
+            ctx.hist("dispatch_validation", exp)
+    name = "K5D-dispatch-vs-python"
+    if not ctx.kernel_report.get("K5D", {}).get("ok"):
+        ctx.correspondence(name, len(cases), -1, "K5D was not translated")
+        return
+    defs = """
+Fixpoint lkv (l: list (string * bool)) (t: string) : bool :=
+  match l with [] => false | (k, b) :: r => if String.eqb k t then b else lkv r t end.
+Definition site_eqb (a b: site) : bool :=
+  match a, b with
+  | SStep TNewType, SStep TNewType | SStep TOptional, SStep TOptional | SStep TElement, SStep TElement
+  | SStep TMember, SStep TMember | SStep TTupleItem, SStep TTupleItem | SStep TNamedField, SStep TNamedField
+  | SStep TTypedKey, SStep TTypedKey | SSelf, SSelf | SDecline, SDecline | SOther, SOther => true
+  | _, _ => false end.
+Definition disp_ok (c: bool * list (string * bool) * site) : bool :=
+  match c with (pk, vals, ex) => site_eqb (site_of ((if pk then dispatch_pack else dispatch_unpack) (lkv vals))) ex end.
+"""
+    bad, log = vlib.coq_bad_idx("c10_dispatch", "PyK_strat OptProj Strategies Positions Dispatch", "From VerifGen Require Import K5D.",
+                                defs, cases, "disp_ok", "bool * list (string * bool) * site", shard=100,
+                                needs=["theories/Dispatch.vo"])
+    if bad is None:
+        ctx.correspondence(name, len(cases), -1, log)
+        ctx.not_shown("translation validation K5D (dispatch)", log)
+    else:
+        ctx.correspondence(name, len(cases), len(bad), str([descr[i] for i in bad[:8]]))
+        if bad:
+            ctx.not_shown("translation validation K5D (dispatch)", f"cases {[descr[i] for i in bad[:8]]}")
+    ctx.count(n=len(cases))
 
 
 def replay(rep: dict) -> int:
